@@ -1,1 +1,151 @@
-/-! STUB — property C10 is not built yet. -/
+import Martian.Lemmas.H2Session
+/-!
+# C10 — an HTTP/2 relay session terminates and releases both connections whichever side ends
+
+Theorems about the process/channel model `Martian.H2Session` (one `h2.Config.Proxy` call: two
+readers, two writers, the `ReadFrame` goroutines, the watcher, channels `output`×2 (cap 15),
+`readerDone`, `writerErr`, `frameReady`, `done`, mutex `flowMu`).  All statements quantify over
+every reachable state and every schedule (list of process labels); nothing is bounded.
+
+Liveness is stated as: (1) a ranking function strictly decreases on every process step, so between
+two environment events at most `mu s` process steps happen; (2) once a terminating event has
+happened (`termed`, which is stable) and no connection write is stalled, a state in which no
+process can move has `returned = true` — except for exactly one class of states, `f10cBlocked`
+(finding F10c), which is reachable (`terminates_counterexample`) and excluded by the decidable
+hypothesis `noPeer` in `terminates_partial`.
+-/
+namespace Martian.Props.C10
+open Martian.H2Session
+
+/-- Ranking function: every step of every process (reader, writer, ReadFrame goroutine, watcher,
+    the `Proxy` goroutine itself) strictly decreases `mu`. -/
+theorem ranking_decreases {s s' : Sys} {l : Label} (hp : l.isProc = true) (h : step s l = some s') :
+    mu s' < mu s := step_decreases hp h
+
+/-- Hence a schedule of process steps from `s` is never longer than `mu s`. -/
+theorem bounded_process_steps {s s' : Sys} {ls : List Label} (hp : procOnly ls = true)
+    (h : exec s ls = some s') : ls.length ≤ mu s := by
+  have := exec_bounded hp h; omega
+
+/-- "A terminating event has happened" is never undone, whatever happens next (any label). -/
+theorem termed_is_stable {s s' : Sys} {l : Label} (ht : termed s = true) (h : step s l = some s') :
+    termed s' = true := termed_stable ht h
+
+/-- Deadlock characterisation: in a reachable state after a terminating event, with no write stalled,
+    if no process can take a step then `Proxy` has returned — or the state is an F10c state. -/
+theorem deadlock_only_f10c {s : Sys} (hr : Reach s) (ht : termed s = true) (hu : unstalled s = true)
+    (hq : quiescent s = true) : s.returned = true ∨ f10cBlocked s = true :=
+  progress_or_f10c (good_reach hr) ht hu hq
+
+/-- The full statement (false of the faithful model, see `terminates_counterexample`): after a
+    terminating event every maximal schedule ends with `Proxy` returned. -/
+def Terminates : Prop :=
+  ∀ s : Sys, Reach s → termed s = true → unstalled s = true →
+    ∀ (ls : List Label) (s' : Sys), procOnly ls = true → exec s ls = some s' →
+      quiescent s' = true → s'.returned = true
+
+/-- Every schedule after a terminating event is bounded by the ranking function, and where it cannot
+    be extended `Proxy` has returned or the session is wedged in an F10c state. -/
+theorem terminates_or_f10c {s s' : Sys} {ls : List Label} (hr : Reach s) (ht : termed s = true)
+    (hu : unstalled s = true) (hp : procOnly ls = true) (h : exec s ls = some s') :
+    ls.length ≤ mu s ∧ (quiescent s' = true → s'.returned = true ∨ f10cBlocked s' = true) := by
+  refine ⟨bounded_process_steps hp h, fun hq => ?_⟩
+  have ⟨a, b, _⟩ := exec_keeps hp h ht
+  exact deadlock_only_f10c (reach_exec hr h) a (by rw [b]; exact hu) hq
+
+/-- PARTIAL (what is missing: sessions in which a WINDOW_UPDATE / SETTINGS makes a reader push the
+    peer relay's queued frames, `noPeer = false`): if no reader is pushing or about to push into the
+    other relay's output, every maximal schedule after a terminating event ends with `Proxy` returned. -/
+theorem terminates_partial {s s' : Sys} {ls : List Label} (hr : Reach s) (ht : termed s = true)
+    (hu : unstalled s = true) (hn : noPeer s = true) (hp : procOnly ls = true) (h : exec s ls = some s')
+    (hq : quiescent s' = true) : s'.returned = true := by
+  have ⟨_, _, c⟩ := exec_keeps hp h ht
+  rcases (terminates_or_f10c hr ht hu hp h).2 hq with r | b
+  · exact r
+  · have := f10c_not_noPeer b; rw [c hn] at this; cases this
+
+/-! ### F10c witness (replayed on the real code by the harness: corpus/C10/directed.ops `f10c-race`) -/
+
+/-- The s2c reader has taken a WINDOW_UPDATE that releases 16 frames queued in the c2s relay and holds
+    the c2s `flowMu`; the client's EOF is waiting in `frameReady` of the c2s reader. -/
+def f10cStart : Sys := { c := { r := .selReady .eof }, s := { r := .pushing .c2s 16 } }
+
+def f10cPrefix : List Label :=
+  [.deliver .s2c (.frame (.peer 16)), .rTake .s2c, .acquire .s2c, .deliver .c2s .eof]
+
+/-- The c2s reader and writer leave; the s2c reader fills the c2s output (15) and blocks on the 16th. -/
+def f10cSchedule : List Label :=
+  [.rTake .c2s, .handshake .c2s] ++ List.replicate 15 (.push .s2c) ++ [.watchDone]
+
+def f10cEnd : Sys :=
+  { c := { r := .gone, out := 15 }, s := { r := .pushing .c2s 1 }, done := true, watcher := false }
+
+theorem f10c_start_reachable : Reach f10cStart :=
+  reach_exec (ls := f10cPrefix) Reach.init (by decide)
+
+theorem f10c_run : exec f10cStart f10cSchedule = some f10cEnd := by decide
+
+/-- The wedged state: a terminating event has happened, nothing is stalled, no process can move,
+    `Proxy` has not returned and the upstream connection is still open. -/
+theorem f10c_end_is_stuck :
+    termed f10cEnd = true ∧ unstalled f10cEnd = true ∧ quiescent f10cEnd = true ∧
+    f10cEnd.returned = false ∧ f10cEnd.scClosed = false ∧ f10cBlocked f10cEnd = true := by decide
+
+theorem terminates_counterexample : ¬ Terminates := by
+  intro h
+  have := h f10cStart f10c_start_reachable (by decide) (by decide) f10cSchedule f10cEnd (by decide) f10c_run (by decide)
+  exact absurd this (by decide)
+
+/-! ### State at return -/
+
+/-- Once `Proxy` has returned it stays returned. -/
+theorem returned_is_stable {s s' : Sys} {l : Label} (hr : s.returned = true) (h : step s l = some s') :
+    s'.returned = true := by
+  obtain ⟨⟨cr, cf, co, cw, cl, cs⟩, ⟨sr, sf, so, sw, sl, ss⟩, dn, clg, wt, rt, scc, ccc⟩ := s
+  step_cases (simp_all)
+
+/-- When `Proxy` has returned, the upstream connection it dialled is closed and both relays
+    (reader and writer of each direction) are gone. -/
+theorem upstream_closed_on_return {s : Sys} (hr : Reach s) (h : s.returned = true) :
+    s.scClosed = true ∧ s.c.r = .gone ∧ s.s.r = .gone := by
+  have g := good_reach hr
+  simp [Good] at g
+  have := g.2.2.2.1 h
+  exact ⟨this.2.2, this.1, this.2.1⟩
+
+/-- No goroutine of the session stays blocked after the return: once the remaining goroutines have
+    run (`quiescent`), the only one that can still exist is the abandoned `ReadFrame` on the CLIENT
+    connection, and it is gone as soon as the caller has closed that connection (as `Proxy.handleLoop`
+    does right after `Proxy` returns). -/
+theorem no_process_left_on_return {s : Sys} (hr : Reach s) (h : s.returned = true) (hq : quiescent s = true) :
+    alive s = (if s.c.leak then [Proc.readframe] else []) ∧ (s.ccClosed = true → alive s = []) := by
+  have g := good_reach hr
+  obtain ⟨⟨cr, cf, co, cw, cl, cs⟩, ⟨sr, sf, so, sw, sl, ss⟩, dn, clg, wt, rt, scc, ccc⟩ := s
+  simp at h; subst h
+  simp [Good] at g
+  obtain ⟨g1, g2, g3, rfl, rfl, rfl⟩ := g
+  simp at g1; subst g1
+  simp [quiescent, procLabels, step, Sys.side, Sys.setSide, Rd.inSelect, lockHeld, Rd.isPushing, srcClosed] at hq
+  simp [alive, Side.alive, Rd.isReading]
+  simp_all
+  cases cl <;> simp_all
+
+/-! ### Non-vacuity -/
+
+/-- The hypotheses of `terminates_partial` are satisfiable, and a full run reaches the final state:
+    client EOF at an idle session, all goroutines end, upstream closed. -/
+example :
+    let s0 : Sys := { c := { r := .selReady .eof } }
+    let run : List Label := [.rTake .c2s, .handshake .c2s, .rDone .s2c, .handshake .s2c, .watchDone, .ret, .rfClosed .s2c]
+    exec init [.deliver .c2s .eof] = some s0 ∧ termed s0 = true ∧ unstalled s0 = true ∧ noPeer s0 = true ∧
+    procOnly run = true ∧
+    (∃ s', exec s0 run = some s' ∧ quiescent s' = true ∧ s'.returned = true ∧ s'.scClosed = true ∧ alive s' = []) := by
+  refine ⟨by decide, by decide, by decide, by decide, by decide, ?_⟩
+  exact ⟨{ c := { r := .gone }, s := { r := .gone }, done := true, watcher := false, returned := true, scClosed := true },
+    by decide, by decide, by decide, by decide, by decide⟩
+
+/-- An idle session without a terminating event is quiescent and NOT returned: the theorems are not
+    about a model that returns by itself. -/
+example : quiescent init = true ∧ termed init = false ∧ init.returned = false := by decide
+
+end Martian.Props.C10
